@@ -182,7 +182,7 @@ func GenProgram(r *core.Rand, ks *KeySpace, tagPrefix string, o GenOpts) []Op {
 	put := func() Op {
 		k := ks.Pick(r)
 		v := val()
-		if o.BigValues && r.Chance(5) {
+		if o.BigValues && r.Chance(5) && len(v) >= 6 { // (an empty value has no unique tag: padding it would create equal values)
 			l := 32768 - 17 - len(k) + r.Range(-1, 1)
 			for len(v) < l {
 				v = append(v, byte('B'+len(v)%23))
